@@ -257,6 +257,13 @@ impl<T: MetricTrait> LeapArray<T> {
         res
     }
 
+    /// Raw ring slots (start stamp + value), for canonical snapshots in the verification harness.
+    #[cfg(sentinel_verif)]
+    #[doc(hidden)]
+    pub fn verif_raw_slots(&self) -> Vec<Arc<BucketWrap<T>>> {
+        self.array.clone()
+    }
+
     #[cfg(test)]
     pub(self) fn get_valid_head(&self) -> Result<Arc<BucketWrap<T>>> {
         let idx = self.time2idx(curr_time_millis() + (self.bucket_len_ms as u64)) as usize;
